@@ -18,6 +18,8 @@ func init() {
 }
 
 func c16(c *Ctx) {
+	c.noPrematureTest("stream/page-size-never-refuses-a-snapshot", "litefs.(*Store).processLTXStreamFrame", `(?i)pagesize`, gs(GP("ltx.(*Header).IsSnapshot(@@)", false)),
+		"the replica's stream path tests the page size of an incoming file, if at all, only once the file is known not to be a snapshot", "a node holding the database with another page size (imported anew on the primary) is sent a snapshot: refusing it for its page size makes the node reconnect for ever")
 	c.pageLoopsComplete("complete", "importToLTX", "Export", "ApplyLTXNoLock")
 	c.clientStatusFamily("http/client", "Import", "Export")
 	p := c.P
